@@ -49,6 +49,10 @@ func TestVerifC03(t *testing.T) {
 	rng := r.Rand("c03")
 	confA := "  p0:\n  p1:\n    maxReaders: 5\n  \"~^live/(.+)$\":\n  all_others:\n"
 	confB := "  p0:\n    maxReaders: 3\n  p1:\n    maxReaders: 5\n  \"~^live/(.+)$\":\n    maxReaders: 2\n  all_others:\n    overridePublisher: no\n"
+	// confC differs from confA only in fields that are applied to a running path in place (record*, forward), and
+	// moves live/a to a dedicated entry with the same settings
+	confC := "  p0:\n    recordDeleteAfter: 3h\n    recordPartDuration: 2s\n  p1:\n    maxReaders: 5\n    forward:\n      - dest: rtsp://127.0.0.1:1/x\n  \"~^live/(.+)$\":\n    recordSegmentDuration: 30m\n  live/a:\n  all_others:\n    recordDeleteAfter: 5h\n"
+	confs := map[string]string{"A": confA, "B": confB, "C": confC}
 	names := []string{"p0", "p1", "live/a", "live/b", "other", "P0", "p0x", "live"}
 	users := []string{"alice", "bob", "carol"}
 	rounds := r.N(120, 2500)
@@ -95,14 +99,12 @@ func TestVerifC03(t *testing.T) {
 				// the client-controlled gap: the configuration may be reloaded and the policy may change meanwhile
 				reloaded := false
 				if rng.IntN(2) == 0 {
-					if cur == "A" {
-						e.reload(confB)
-						cur = "B"
-					} else {
-						e.reload(confA)
-						cur = "A"
+					next := []string{"A", "B", "C"}[rng.IntN(3)]
+					if next != cur {
+						e.reload(confs[next])
+						cur = next
+						reloaded = true
 					}
-					reloaded = true
 				}
 				if rng.IntN(4) == 0 {
 					setPolicy()
@@ -121,7 +123,7 @@ func TestVerifC03(t *testing.T) {
 				confOf[id] = gen
 				r.Eval(fmt.Sprintf("%d|pub2|%s|%s|%v", round, u, n, reloaded))
 				if !inForce.Equal(res.Conf) {
-					r.Violation("publisher-attached-under-another-configuration", fmt.Sprintf("publisher %s was authorized for %q against configuration generation %s, the configuration was reloaded before it attached, and it was attached to a path that runs a different configuration (maxReaders %d vs %d, overridePublisher %v vs %v)", u, n, gen, inForce.MaxReaders, res.Conf.MaxReaders, inForce.OverridePublisher, res.Conf.OverridePublisher), nil)
+					r.Violation("publisher-attached-under-another-configuration", fmt.Sprintf("publisher %s was authorized for %q against configuration generation %s, the configuration was reloaded before it attached, and it was attached to a path that runs a different configuration (entry %q vs %q, maxReaders %d vs %d, overridePublisher %v vs %v, recordDeleteAfter %v vs %v)", u, n, gen, inForce.Name, res.Conf.Name, inForce.MaxReaders, res.Conf.MaxReaders, inForce.OverridePublisher, res.Conf.OverridePublisher, inForce.RecordDeleteAfter, res.Conf.RecordDeleteAfter), nil)
 				}
 				holds = append(holds, held{pub: p})
 			case 2: // publisher authenticated by AddPublisher itself
@@ -219,6 +221,6 @@ func TestVerifC03(t *testing.T) {
 		}
 		e.close()
 	}
-	r.Finish("the real path manager with an authentication manager that decides from a random table (user x action x path, redrawn during the run) and logs every decision; 25 operations per round by three users on static, regular-expression, catch-all, near-miss and case-variant names: publishers attached the way the servers do it (FindPathConf authenticates, then AddPublisher with SkipAuth and ConfToCompare, with a configuration reload and / or a policy change injected in the gap), publishers authenticated by AddPublisher, readers, describes, removals. Checker over the event log: every successful attach has, between its call and its return, an admission of exactly (that user, the matching action, that path name); a publisher attached after a reload runs under a configuration Equal to the one it was authorized against. non-trivial = distinct (round, operation, user, name)",
+	r.Finish("the real path manager with an authentication manager that decides from a random table (user x action x path, redrawn during the run) and logs every decision; 25 operations per round by three users on static, regular-expression, catch-all, near-miss and case-variant names: publishers attached the way the servers do it (FindPathConf authenticates, then AddPublisher with SkipAuth and ConfToCompare, with a configuration reload (three configurations: one differs in fields that recreate the path, one only in fields applied in place and in which entry a name resolves to) and / or a policy change injected in the gap), publishers authenticated by AddPublisher, readers, describes, removals. Checker over the event log: every successful attach has, between its call and its return, an admission of exactly (that user, the matching action, that path name); a publisher attached after a reload runs under a configuration Equal to the one it was authorized against. non-trivial = distinct (round, operation, user, name)",
 		"credentials are reduced to a user name and the IP is not varied here (the admission decision itself is C01 / C02); the servers' protocol layers are exercised by the second part")
 }
